@@ -17,7 +17,9 @@ from vk import probe
 LEVEL = 'exploration'
 RULE = ('values: seeded random JSON documents (nesting to depth 6, empty containers, duplicate and odd keys, strings '
         'with every JSON escape and raw non-ASCII / non-BMP text, numbers in every JSON spelling incl. negative, '
-        'fractional, both exponent signs and cases, -0, huge and tiny), serialised with random JSON white space; '
+        'fractional, both exponent signs and cases, -0, huge and tiny), serialised with random JSON white space; 17 wide '
+        'values (300-1500 members); 98 strings whose content is a word of JavaScript / Python / JSON as value, element, '
+        'member and key; '
         'configurations {fold_ops off, on} x {var, assignment, nested in function}; a case = (json text, form, '
         'fold_ops); non-trivial = the value is a container, or a string with an escape, or a non-integer number; '
         'distinct by that triple.')
